@@ -51,6 +51,10 @@ struct Case {
 
 /// the event type of this check carries a column of every kind, so that materialised frames
 /// have to encode and decode all of them
+fn cfg_key(c: &SysConfig) -> String {
+    format!("cfg({},{},{}){}", c.shards, c.fill_factor, c.event_per_zone, c.streaming_batch_size.map(|b| format!("rows{b}")).unwrap_or_default())
+}
+
 fn define14() -> String {
     "DEFINE a FIELDS { k: \"int\", s: \"string\", ta: \"int\", n: \"int\", f: \"float\", dd: \"date\", dt: \"datetime\", en: [\"x\", \"y\"], bb: \"bool\", ob: \"int | null\" }".to_string()
 }
@@ -168,6 +172,8 @@ pub fn check(tier: &str) -> i32 {
         SysConfig { fill_factor: 2, event_per_zone: 1, ..Default::default() },
         SysConfig { fill_factor: 4, event_per_zone: 2, shards: 2, ..Default::default() },
         SysConfig { fill_factor: 4, event_per_zone: 4, ..Default::default() },
+        // row frames instead of batch frames on the response path (streaming_batch_size = 0)
+        SysConfig { fill_factor: 4, event_per_zone: 2, streaming_batch_size: Some(0), ..Default::default() },
     ];
     let mut cases = Vec::new();
     for (ci, cfg) in cfgs.iter().enumerate() {
@@ -181,6 +187,10 @@ pub fn check(tier: &str) -> i32 {
                     if tier == "quick" && (ci == 1 && pos % 2 == 1) {
                         continue;
                     }
+                    // the row-frame configuration: first query only, every second REMEMBER position
+                    if ci == 3 && (*q != qs[0] || pos % 2 == 1) {
+                        continue;
+                    }
                     cases.push(Case { cfg: cfg.clone(), q, seq: seq.clone(), pos });
                 }
             }
@@ -188,7 +198,7 @@ pub fn check(tier: &str) -> i32 {
     }
     // debugging aid: VERIF_C14_ONLY=<substring of a case key> runs the matching cases only (no verdict is to be drawn from such a run)
     if let Ok(f) = std::env::var("VERIF_C14_ONLY") {
-        cases.retain(|c| format!("cfg({},{},{})|{}|{:?}|remember@{}", c.cfg.shards, c.cfg.fill_factor, c.cfg.event_per_zone, c.q, c.seq, c.pos).contains(&f));
+        cases.retain(|c| format!("{}|{}|{:?}|remember@{}", cfg_key(&c.cfg), c.q, c.seq, c.pos).contains(&f));
         eprintln!("VERIF_C14_ONLY: {} cases", cases.len());
     }
     let res = par_map(&cases, threads(), |i, c| run_case(&scratch.dir.join(format!("h{i}")), c));
@@ -207,7 +217,7 @@ pub fn check(tier: &str) -> i32 {
     let mut outcomes: BTreeSet<String> = BTreeSet::new();
     for (i, r) in res.iter().enumerate() {
         let c = &cases[i];
-        let key0 = format!("cfg({},{},{})|{}|{:?}|remember@{}", c.cfg.shards, c.cfg.fill_factor, c.cfg.event_per_zone, c.q, c.seq, c.pos);
+        let key0 = format!("{}|{}|{:?}|remember@{}", cfg_key(&c.cfg), c.q, c.seq, c.pos);
         match r {
             Err(e) if e.contains("panic in job") => {
                 // the engine panicked while serving a command of the history (e.g. a SHOW that cannot
